@@ -85,119 +85,127 @@ def reg(pid, level, rules, explanation):
 reg("C01", "other",
     [T.t_bij, P.t_prop3, L.l_eq, B.l_cover, P.l_propdec, D.h_dispatch3, T.t_varint_readers, PL.s_persist, PL.h_total,
      B.t_bits, C.h_payfmt, L.t_ctl, P3.h_shortform],
-    "NOT decided: equality of the decoded value with the original over the unbounded value space (a runtime quantity). "
-    "Decided: structural necessary conditions of a round trip, each exact for what it compares: T-bij (every wire-code enum's "
-    "`as u8` discriminant table and its from_u8 table are inverse bijections), T-prop3 (decode / encode / encode_len of every v5 "
-    "property set handle the same ids wired to the same field), L-eq (encode writes what encode_len declares, for every field "
-    "combination), L-cover (every length-bearing field is written, conditional only on itself), L-propdec (bytes read per "
-    "property == accounted == encode_len term), H-dispatch3 (the three front-ends run the same body decoders), T-varint2/"
-    "S-persist/H-total (the poll front-end decodes the same header and reports 1+len-of-len+remaining); T-bits / T-ctl (flag bytes "
-    "and control bytes written by the encoders are the ones the decoders read back, over their complete domains); H-payfmt (the payload "
-    "check rejects only flag=Some(true) with invalid UTF-8); H-shortform (the v5 short forms the encoder emits are the ones the decoders accept).")
+    "NOT decided: equality of the decoded value with the original over the unbounded value space (a runtime quantity); field order "
+    "inside bodies (L-trace was not built). Decided: structural necessary conditions of a round trip, each exact for what it compares: "
+    "T-bij (every wire-code enum's `as u8` discriminant table and its from_u8 table, evaluated for all 256 bytes, are inverse "
+    "bijections), T-prop3 (decode / encode / encode_len of every v5 property set handle the same ids wired to the same field), L-eq "
+    "(encode writes what encode_len declares, for every field combination), L-cover (every length-bearing field is written, "
+    "conditional only on itself), L-propdec (bytes read per property == accounted == encode_len term), H-dispatch3 (the three "
+    "front-ends run the same body decoders), V-reader/P-header/S-persist/P-complete/P-body (the poll front-end decodes the same header, "
+    "hands over the raw body and reports 1+len-of-len+remaining), T-bits / T-ctl (flag bytes and control bytes written by the encoders "
+    "are the ones the decoders read back, over their complete domains), H-payfmt (the payload check rejects only flag=Some(true) with "
+    "invalid UTF-8), H-shortform (the v5 short forms the encoder emits are the ones the decoders accept).")
 
 reg("C02", "other",
     [L.l_eq, L.l_hdr, L.l_fixed, L.s_dbg, PN.s_panic_encode, T.t_width, T.t_varint_writer],
     "Decided exactly (all inputs of the valid domain): L-eq for each of the 35 `impl Encodable` (bytes written by encode == "
     "encode_len as multilinear polynomials over field-presence/variant atoms, i.e. for every subset of optional fields and "
     "properties, every reason code, any number of list elements); L-hdr (encode_packet = control byte, var-int of exactly "
-    "body.encode_len(), body; total_len()? refusal dominates every write); L-fixed (fixed-array fast paths and Packet::encode_len "
-    "agree per variant); S-dbg (debug-assertion-only code has no effects); T-width (width tables). One known finding (F5): an "
-    "oversize property block panics in encode_len instead of being refused. Assumed: write_var_int(n) writes var_int_len(n) bytes "
-    "(its constants are checked by T-varint); 64-bit usize sums do not overflow.")
+    "body.encode_len(), body; total_len()? refusal dominates every write); L-fixed/T-ctl (Packet::encode and Packet::encode_len "
+    "evaluated per variant: fixed-array fast paths and dynamic variants agree); S-dbg (debug-assertion-only code has no effects; the "
+    "thorough tier repeats everything with debug assertions off); T-width (width tables); V-writer. One known finding (F5): an "
+    "oversize property block panics in encode_len instead of being refused. Assumed: 64-bit usize sums do not overflow.")
 
 reg("C03", "other",
     [PN.s_panic_decode, PN.s_loop, PN.s_alloc, C.s_unsafe, C.h_utf8, PL.g_dispatch, PL.h_cap, PL.h_pending, T.t_varint_readers,
      B.l_consume, P.l_propdec],
     "Site audit over the call-graph closure of all decoder entry points: every panic-capable site (arithmetic on unsigned "
-    "integers, indexing, unwrap/expect, explicit panics) is discharged by a dominating-guard rule or a named table entry with a "
-    "reason (the table entries are reviewed, not proved); every loop matches a progress pattern (counter loops are accounted "
-    "by L-consume/L-propdec with decrease >= 1; raw loops read the transport each iteration; zero-length read is EOF); every "
-    "unsafe block is one of three audited shapes; allocation sizes are declared lengths < 2^28; no recursion. Not decided: "
-    "stack/heap exhaustion inside std/tokio.")
+    "integers, indexing incl. Index-trait calls, unwrap/expect, explicit panics) is discharged by a dominating-guard rule or a named "
+    "table entry with a reason (the table entries are reviewed, not proved); every loop matches a progress pattern (counter loops are "
+    "accounted by L-consume/L-propdec with decrease >= 1; raw loops read the transport each iteration; zero-length read is EOF); every "
+    "unsafe block is one of three audited shapes (from_utf8_unchecked after validation of the same buffer - H-utf8; set_len equal to "
+    "the requested capacity - P-complete; MaybeUninit buffer assumed init only on exact fill - P-body); allocation sizes have the "
+    "provenance 'widened u8/u16' or 'remaining length < 2^28, decreased only' (S-alloc); the one unreachable! is unreachable "
+    "(G-dispatch); no recursion. Not decided: stack/heap exhaustion inside std/tokio.")
 
 reg("C04", "other",
     [T.t_codes, T.t_hdr, P.t_props, P.h_proplen, P.h_dup, P.h_bytevals, P.l_propdec, PL.h_exactfill, B.t_bits, B.h_checked_sub,
      B.l_consume, C.h_ctor, C.h_utf8, T.t_varint_readers, P3.h_shortform],
     "NOT decided: language equality between the strict decoder's accepted set and the MQTT grammar, nor the conjunction of the "
-    "clauses below into it. Decided exactly against independent OASIS tables (spec_mqtt.py): header nibble/flag table, accepted "
-    "domain of every code table, permitted property set per packet and its rejecting default arm, duplicate rejection before "
-    "every store, 0/1 byte properties, exact property length test, exact-fill tests on every success return of poll, CONNECT "
-    "flag / subscription-option / CONNACK-flag masks and validators, checked_sub on every decrement, validated constructors "
-    "for pid/topic/filter/var-int, UTF-8 validation before string construction. The library's deliberate leniencies are "
-    "listed in DESIGN.md section 5.")
+    "clauses below into it. Decided exactly against independent OASIS tables (spec_mqtt.py): header nibble/flag table for all 256 "
+    "control bytes (T-hdr), accepted domain of every code table (T-codes), permitted property set per packet and its rejecting default "
+    "arm (T-props), duplicate rejection before every store (H-dup), 0/1 byte properties (H-bytevals), exact property length test "
+    "(H-proplen), exact fill of the frame and zero remaining length for body-less packets in the poll decoder (P-complete/P-body), "
+    "CONNECT flag / subscription-option / CONNACK-flag masks and validators over all 256 bytes (T-bits), checked_sub on every decrement, "
+    "validated constructors for pid/topic/filter/var-int (H-ctor), UTF-8 validation before string construction (H-utf8), the three v5 "
+    "short forms and no others (H-shortform). The library's deliberate leniencies are listed in DESIGN.md section 5.")
 
 reg("C05", "other",
     [PL.h_borrow, PL.s_persist, PL.h_pending, PL.h_cap, PL.h_total, T.t_varint_readers],
     "NOT decided: equality of outcomes over all delivery schedules (a runtime quantity). Decided: the structural discipline that "
     "makes the outcome a function of (caller-held state, bytes delivered): the future holds only two &mut borrows, has no Drop "
-    "and its constructor only stores them (H-borrow); inside poll no local declared outside a loop is assigned inside it and no "
-    "mutable local other than the scratch buffers exists (S-persist); Pending is produced only for the transport's Pending "
-    "(H-pending); header reads use a 1-byte buffer and body reads buf[idx..] of a buffer sized by the remaining length (H-cap); "
-    "success returns report 1 + 1 + var_idx (+ remaining length) (H-total); the header var-int state machine equals the "
-    "standalone reader and derives its shift from the persisted index (T-varint2).")
+    "and its constructor only stores them (H-borrow); inside poll no local declared outside a loop is assigned inside it and every "
+    "place updated from the reader is a projection of the state (S-persist); the evaluated transfer functions of the header and body "
+    "states (P-header, P-complete, P-body): Pending is returned exactly for the transport's Pending with the state unchanged, header "
+    "bytes are read one at a time, the shift derives from the persisted index, body reads target buf[idx..] and advance idx by the "
+    "bytes filled, success reports 1 + 1 + var_idx (+ remaining length).")
 
 reg("C06", "other",
     [D.h_dispatch3, D.h_hdr1, D.h_block, PL.h_exactfill, T.t_varint_readers],
     "Decided exactly for the dispatch layer, the only place the three front-ends differ: per packet type the async decoder, "
-    "block_decode and build_empty_packet name the same body decoder with the same arguments or build the same value "
-    "(H-dispatch3); all obtain the header through the same Header::new_with and decode_raw_header raises nothing of its own "
-    "(H-hdr1); the two var-int readers agree (T-varint2); Packet::decode is block_on(decode_async) with Ok->Some, EOF->None, "
-    "other errors unchanged (H-block); poll substitutes only InvalidRemainingLength (H-strict). Not decided: determinism of the "
-    "shared decoder code itself (it has no state; S-pure covers the encode side only).")
+    "block_decode and build_empty_packet, evaluated on an abstract header, run the same body decoder with the same arguments or build "
+    "the same value (H-dispatch3); all obtain the header through the same Header::new_with and decode_raw_header raises nothing of its "
+    "own (H-hdr1); the two var-int readers have the same transfer function (V-reader, P-header); Packet::decode is "
+    "block_on(decode_async) with Ok->Some, EOF->None, other errors unchanged (H-block, every error variant); poll substitutes only "
+    "InvalidRemainingLength (P-body). Not decided: determinism of the shared decoder code itself (it has no state; S-pure covers the "
+    "encode side only).")
 
 reg("C07", "other",
     [IO.s_readers, IO.s_ioerr, IO.t_eof, IO.h_noswallow, D.h_block, B.l_consume, PL.h_pending],
     "Decided per site: every transport call is read_exact (operand read completely before use) or poll_read in poll "
     "(S-readers); every io::Result is propagated by `?` or a kind-preserving map_err (S-ioerr); is_eof <=> IoError(UnexpectedEof) "
-    "for both error types and zero-length reads produce exactly that (T-eof, H-pending); no closure relabels an I/O error "
-    "(H-noswallow); Packet::decode maps exactly the EOF class to Ok(None) (H-block); decoders consume exactly the frame's "
-    "remaining length, so trailing bytes are never touched (L-consume). Not decided: that no validation fires early on a "
-    "strict prefix of a valid encoding (follows from read-before-use but is not derived).")
+    "for both error types and zero-length reads produce exactly that (T-eof, P-header/P-body); no map_err closure relabels an I/O "
+    "error, no .ok()/unwrap_or on a read result, and every match / if-let / let-else on a Result that can carry an I/O error "
+    "propagates it in every arm that can see an Err (H-noswallow); Packet::decode maps exactly the EOF class to Ok(None) (H-block); "
+    "decoders consume exactly the frame's remaining length, so trailing bytes are never touched (L-consume). Not decided: that no "
+    "validation fires early on a strict prefix of a valid encoding (follows from read-before-use but is not derived).")
 
 reg("C08", "other",
     [PL.h_total, PL.h_cap, B.l_consume, P.l_propdec, P.h_proplen, T.t_width, T.t_varint_readers, PL.s_persist, P3.h_shortform],
     "NOT decided: equality of a decoded sequence with a generated one over all histories. Decided: the per-packet consumption "
     "invariant from which framing follows by induction: the poll decoder reads 1 + (1 + var_idx) header bytes and exactly "
-    "remaining_len body bytes and reports their sum (H-total, H-cap, S-persist, T-varint2); every accounting body decoder consumes "
+    "remaining_len body bytes and reports their sum (P-header, P-complete, P-body, S-persist); every accounting body decoder consumes "
     "exactly header.remaining_len bytes on every accepting path and each loop reads what it subtracts (L-consume, L-propdec, "
-    "H-proplen, under minimal var-ints); total_len / header_len / remaining_len are mutually consistent (T-width).")
+    "H-proplen, under minimal var-ints); the v5 acknowledgement family reads exactly the declared length in its fixed-size forms and "
+    "goes on to the property block otherwise (H-shortform); total_len / header_len / remaining_len are mutually consistent (T-width).")
 
 reg("C09", "other",
     [IO.h_async1, IO.h_asref, IO.s_writers, IO.s_pure, L.l_hdr, L.l_fixed],
     "Decided for the crate's own code (tokio's write_all semantics under partial writes / Pending are trusted): encode_async is "
     "encode()? followed by exactly one write_all(data.as_ref()) on the same bytes with no branching (H-async1); VarBytes::as_ref "
-    "returns the whole container for every variant (H-asref); only write_all is ever called on a sink (S-writers); packet bytes = "
-    "control byte + var-int(encode_len) + what body.encode writes, with no conditional fast path beside the per-variant table "
-    "(L-hdr, L-fixed); the encode closure reads no static/thread-local/interior-mutable state and calls nothing environment "
-    "dependent (S-pure).")
+    "returns the whole container for every variant (H-asref); only write_all is ever called on a sink and no buffering adapter sits "
+    "between an encoder and the sink unless its flush result is propagated (S-writers); packet bytes = control byte + "
+    "var-int(encode_len) + what body.encode writes, fast paths only per the evaluated per-variant table (L-hdr, L-fixed/T-ctl); the "
+    "encode closure reads no static/thread-local/interior-mutable state and calls nothing environment dependent (S-pure).")
 
 reg("C10", "other",
     [T.t_rc, L.t_ctl, P.t_propid, B.t_bits, T.t_varint_writer, T.t_proto, L.l_hdr],
     "Static analysis cannot run an independent decoder; decided instead: every constant the encoder puts on the wire equals the "
-    "independently typed OASIS tables (spec_mqtt.py): control bytes incl. PUBLISH flag bits (T-ctl), all 138 wire-code enum "
-    "discriminants (T-rc), property ids, their wire types and the id-then-value order, length prefix = sum of written items "
-    "(T-propid), CONNECT flag and subscription-option bit layouts (T-bits), var-int writer constants (T-varint), protocol "
-    "name/level pairs (T-proto), header assembly (L-hdr). Not decided here: body field order against the spec (L-trace is not "
-    "implemented); big-endian integers rest on to_be_bytes being the only integer serialiser reached (checked by L's primitive "
-    "summaries).")
+    "independently typed OASIS tables (spec_mqtt.py): control bytes incl. PUBLISH flag bits for all 12 flag combinations (T-ctl), all "
+    "138 wire-code enum discriminants (T-rc), property ids, their wire types and the id-then-value order, length prefix = sum of "
+    "written items (T-propid), CONNECT flag and subscription-option bit layouts (T-bits), the var-int writer's transfer function "
+    "(V-writer), protocol name/level pairs (T-proto), header assembly (L-hdr). Not decided here: body field order against the spec "
+    "(L-trace is not implemented); big-endian integers rest on to_be_bytes being the only integer serialiser reached (checked by L's "
+    "primitive summaries).")
 
 reg("C11", "other",
     [L.l_eq, B.l_cover, T.t_bij, PN.s_panic_encode, T.t_width, C.h_ctor, P.l_propdec, P.h_proplen, B.t_bits, L.t_ctl, P3.h_shortform],
     "NOT decided: the runtime round trip over accepted byte strings. Decided (necessary): the encoder is length-exact on every "
     "value a decoder can construct, not only canonical ones (L-eq quantifies over all atom assignments); every length-bearing "
     "field is written whenever present, depending only on itself (L-cover); every enum value a from_u8 table returns is written "
-    "back as the byte it came from (T-bij); no panic site in the encode closure other than the known oversize expect (S-panic-enc; "
-    "F5 is unreachable for decoder-built packets); decoders build validated types only through their constructors (H-ctor).")
+    "back as the byte it came from (T-bij); every flag/bit a decoder accepts is written back (T-bits, T-ctl); the short forms agree "
+    "(H-shortform); no panic site in the encode closure other than the known oversize expect (S-panic-enc; F5 is unreachable for "
+    "decoder-built packets); decoders build validated types only through their constructors (H-ctor).")
 
 reg("C12", "proof",
     [C.h_priv, C.h_ctor, C.h_utf8, C.h_payfmt, C.h_accessors, T.t_width],
     "All obligations exact: private fields and no way around the validating constructors (H-priv); Pid/TopicName/TopicFilter/"
-    "VarByteInt are constructed only inside their constructors behind the rejection (H-ctor); the single unchecked String "
-    "construction is dominated on every path by simdutf8 validation of the same buffer and no other unchecked/lossy construction "
-    "exists (H-utf8); a payload flagged UTF-8 is validated on the buffer that becomes the payload (H-payfmt); VarByteInt bound is "
-    "2^28 (T-width). The clause 'shared-subscription accessors work' is decided only structurally (H-accessors: they use nothing "
-    "but the validator's index, the prefix matcher compares 7 characters and advances by len_utf8); that the index is the right "
-    "'/' is C16 territory and not decided.")
+    "VarByteInt are constructed only inside their constructors, which evaluated on abstract inputs reject exactly the invalid values "
+    "and store their argument (H-ctor); read_string validates the very buffer it turns into a String and no other unchecked/lossy "
+    "construction exists (H-utf8); a payload flagged UTF-8 is validated on the buffer that becomes the payload, over all flag/validity "
+    "combinations (H-payfmt); VarByteInt bound is 2^28 (T-width). The clause 'shared-subscription accessors work' is decided only "
+    "structurally (H-accessors: they use nothing but the validator's index, the prefix matcher compares 7 characters and advances by "
+    "len_utf8); that the index is the right '/' is C16 territory and not decided.")
 
 reg("C13", "proof",
     [T.t_proto, C.s_gate, C.h_protoread],
@@ -211,32 +219,36 @@ reg("C14", "other",
     [IO.s_ioerr, IO.s_readers, IO.s_writers, IO.h_fromio, IO.h_toio, IO.h_noswallow, IO.t_eof, IO.h_async1, PL.h_pending],
     "Decided per site over decode and encode closures (tokio/std adaptor semantics trusted): every io::Result from a transport or "
     "sink call is propagated through a kind-preserving conversion (S-ioerr); From<io::Error> keeps err.kind(), From<Error> for "
-    "io::Error returns the carried kind and InvalidData otherwise (H-fromio, H-toio); no handler turns an I/O error into a packet, "
-    "protocol error or Ok(None) except the documented EOF mapping (H-noswallow, T-eof); only read_exact/poll_read and write_all "
-    "are used (S-readers, S-writers); the async encoders compute the full encoding before touching the sink (H-async1).")
+    "io::Error returns the carried kind and InvalidData otherwise, evaluated for every error variant (H-fromio, H-toio); no handler "
+    "turns an I/O error into a packet, protocol error or Ok(None) except the documented EOF mapping (H-noswallow, T-eof); only "
+    "read_exact/poll_read and write_all are used and no unflushed buffering adapter hides a write error (S-readers, S-writers); the "
+    "async encoders compute the full encoding before touching the sink (H-async1); the poll decoder returns transport errors "
+    "unchanged and EOF as UnexpectedEof (P-header/P-body).")
 
 reg("C15", "other",
     [T.t_width, T.t_varint_writer, T.t_varint_readers, C.h_ctor, PL.h_total],
     "The width helpers touch their argument only through comparisons with constants, so T-width decides their laws for all 2^28 "
-    "values from the extracted piecewise tables (var_int_len, total_len, header_len, remaining_len, VarByteInt bound, cross law). "
-    "T-varint2 decides that the standalone reader and the poll header state machine have the same (mask, step, continuation, "
-    "4-byte cap, error) equal to the spec; T-varint checks the writer's constants. NOT decided: decode(write(n)) = n as an "
-    "arithmetic identity (follows from the textbook argument; assumed from shape).")
+    "values from the reconstructed piecewise tables (var_int_len, total_len, header_len, remaining_len, VarByteInt bound, cross law). "
+    "V-reader / P-header decide that the standalone reader and the poll header state machine have the same transfer function (mask, "
+    "step, continuation, 4-byte cap, error) equal to the spec; V-writer the writer's; P-complete that the poll decoder's reported total "
+    "uses the number of length bytes consumed. NOT decided: decode(write(n)) = n as an arithmetic identity (follows from the two "
+    "transfer functions by the textbook argument; stated, not mechanised).")
 
 reg("C17", "other",
     [C.h_fields, C.h_accessors, C.h_ctor],
-    "Sentence 2 decided exactly: Eq/Ord/PartialOrd/Hash/Display/Deref of TopicFilter are hand-written, read only `inner` and "
-    "delegate to String (H-fields); the constructor stores its argument unchanged (H-ctor). Sentence 1 partly decided (necessary): "
-    "accessors slice inner[7..sep] / inner[sep+1..] only when sep > 0, 7 == len(\"$share/\"), sep is written only from is_invalid's "
-    "result, the validator's prefix matcher compares all 7 characters and advances its byte index by len_utf8 (H-accessors). NOT "
-    "decided: that the cached index is the '/' that ends the share name.")
+    "Sentence 2 decided exactly: eq / cmp / partial_cmp / hash of TopicFilter are hand-written and, evaluated on abstract filters with "
+    "different cached indices, are exactly the text's own eq / cmp / hash; Display/Deref read only the text (H-fields); the constructor "
+    "stores its argument unchanged (H-ctor). Sentence 1 partly decided (necessary): accessors slice inner[7..sep] / inner[sep+1..] only "
+    "when sep > 0, 7 == len(\"$share/\"), sep is written only from is_invalid's result, the validator's prefix matcher compares all 7 "
+    "characters and advances its byte index by len_utf8 (H-accessors). NOT decided: that the cached index is the '/' that ends the "
+    "share name.")
 
 reg("C18", "proof",
     [T.t_tname, C.h_tn, C.h_ctor, C.h_priv],
-    "All obligations exact: TopicName::is_invalid is `byte length > 65535 || contains one of {'+','#','\\0'}` with the named "
-    "constants evaluated (T-tname); try_from returns InvalidTopicName(value) iff is_invalid(value) else stores the same string "
-    "(H-ctor); it is the only construction site, fields are private (H-priv); Deref/Display return the text, is_shared/is_sys are "
-    "starts_with(\"$share/\") / starts_with(\"$SYS/\") (H-tn-read); five decode paths go through try_from (H-tn-paths).")
+    "All obligations exact: TopicName::is_invalid is `byte length > 65535 || contains one of {'+','#','\\0'}` (T-tname, evaluated); "
+    "try_from returns InvalidTopicName(value) iff is_invalid(value) else stores the same string (H-ctor, evaluated); it is the only "
+    "construction site, fields are private (H-priv); Deref/Display return the text, is_shared/is_sys are starts_with(\"$share/\") / "
+    "starts_with(\"$SYS/\") (H-tn-read); five decode paths go through try_from (H-tn-paths).")
 
 reg("C20", "other",
     [RA.h_raise, RA.h_order, P.t_props, P.h_proplen, P.h_dup, P.h_bytevals, D.h_dispatch3, PL.h_exactfill, D.h_block,
@@ -244,6 +256,7 @@ reg("C20", "other",
     "NOT decided: that a given byte-level malformation of a given packet reaches the site the catalogue names (path feasibility "
     "over inputs). Decided: every raise site carries the value its guard tested (H-raise payload rule), each documented variant is "
     "raised only where the catalogue places it and the mandatory sites exist (placement, floors), unknown reason bytes become "
-    "InvalidReasonCode(header.typ, byte), from_u8 tables raise their documented variant, the pinned evaluation order of checks "
-    "(H-order), and the three front-ends run the same raise sites with only the documented re-labelling (H-dispatch3, H-exactfill, "
-    "H-block, H-noswallow).")
+    "InvalidReasonCode(header.typ, byte) in every v5 decoder that reads one and an empty SUBSCRIBE/UNSUBSCRIBE is EmptySubscription "
+    "(evaluated), from_u8 tables raise their documented variant, bad flag bytes get their documented variant (T-bits), the pinned "
+    "evaluation order of checks (H-order), and the three front-ends run the same raise sites with only the documented re-labelling "
+    "(H-dispatch3, P-body, H-block, H-noswallow).")
